@@ -265,7 +265,17 @@ def local_memo_sites(repo: Repo, fi: FuncInfo) -> List[MemoSite]:
                     s.covered.append(f"{txt} (parameter, fixed for the cache's lifetime)")
                     continue
                 ok_all = True
+                # lazily initialised once per cache lifetime: `x = None` where the cache is created, `if x is None: x = ...` later
+                resets = [d for d in rebinds if d.kind == "assign" and isinstance(d.value, ast.Constant) and d.value.value is None
+                          and any(set(map(id, loops_of(d.stmt))) == il for il in init_loops)]
                 for d in rebinds:
+                    if d in resets:
+                        continue
+                    if resets:
+                        par_ = pm.get(d.stmt)
+                        if isinstance(par_, ast.If) and isinstance(par_.test, ast.Compare) and isinstance(par_.test.ops[0], ast.Is) \
+                                and norm(par_.test.left) == a0.id and isinstance(par_.test.comparators[0], ast.Constant) and par_.test.comparators[0].value is None:
+                            continue
                     lps = loops_of(d.stmt)
                     if not lps:
                         # re-bound outside any loop (e.g. before the cache exists): harmless if before the init
